@@ -20,6 +20,8 @@ type vShape struct {
 	NUnstable int // unstable entries
 	Prod      bool // preVote+checkQuorum on (production) or both off
 	SimplePr  bool // progress of every peer in unpaused probe state (state machine of replication is not the subject)
+	RichOne   bool // with SimplePr off: only voter 2 (and the learner) has an arbitrary replication state, the other peers are simple
+	ConcIdx   bool // the snapshot (dummy) index is one of two concrete values (0 or 7) instead of symbolic: all log indexes are then concrete
 }
 
 const vMaxIdx = uint64(1) << 40 // indexes and terms stay far from wrap-around (stated bound)
@@ -47,7 +49,12 @@ func vMkRaft(s vShape) *vRaft {
 	term := vsym.U64("Term")
 	vsym.Assume(term < vMaxIdx)
 	// ---- log ----
-	snapIdx := vsym.U64("snap.index")
+	var snapIdx uint64
+	if s.ConcIdx {
+		snapIdx = uint64(7 * vsym.Choose("snap.index.c", 2))
+	} else {
+		snapIdx = vsym.U64("snap.index")
+	}
 	snapTerm := vsym.U64("snap.term")
 	vsym.Assume(snapIdx < vMaxIdx)
 	vsym.Assume(snapTerm <= term)
@@ -103,7 +110,7 @@ func vMkRaft(s vShape) *vRaft {
 		id := uint64(i)
 		v.voters = append(v.voters, id)
 		v.all = append(v.all, id)
-		r.prs[id] = vMkProgress(id, last, false, s.SimplePr)
+		r.prs[id] = vMkProgress(id, last, false, s.SimplePr || (s.RichOne && id != 2))
 	}
 	if s.Learner {
 		id := uint64(s.N + 1)
@@ -277,6 +284,14 @@ func vAssumeWellFormed(v *vRaft, m *pb.Message) {
 	vsym.Assume(vsym.Implies(isResp, m.Term >= 1))
 	// GLOBAL: a forwarded MsgTransferLeader (non-zero term) is addressed to the leader of that term
 	vsym.Assume(vsym.Implies(vsym.And(t == pb.MsgTransferLeader, vsym.And(m.Term != 0, m.Term == r.Term)), vsym.Or(r.state == StateLeader, r.lead == None)))
+	// a replica never sends replication or vote messages to itself (its own vote is polled directly), so no response comes from itself
+	vsym.Assume(vsym.Implies(isResp, m.From != r.id))
+	// GLOBAL (acknowledged entries are persistent): a follower never rejects a previous index it has already acknowledged, and its last index (the hint) is at least what it acknowledged
+	for _, id := range v.all {
+		if pr := r.getProgress(id); pr != nil {
+			vsym.Assume(vsym.Implies(vsym.And(t == pb.MsgAppResp, vsym.And(m.Reject, vsym.And(m.Term == r.Term, m.From == id))), vsym.And(m.Index > pr.Match, m.RejectHint >= pr.Match)))
+		}
+	}
 	// responses to a leader acknowledge only what it sent: index within its log (per-term, GLOBAL)
 	vsym.Assume(vsym.Implies(vsym.And(t == pb.MsgAppResp, m.Term == r.Term), vsym.And(m.Index <= last, m.RejectHint <= last)))
 	// local report messages name a peer and have no term
